@@ -13,6 +13,7 @@ pub mod c14;
 pub mod c15;
 pub mod c16;
 pub mod c18;
+pub mod c19;
 pub mod c20;
 pub mod gen_tracks;
 pub mod transport;
